@@ -231,7 +231,7 @@ func (c *C) containerType(t types.Type) (string, bool) {
 		return "", false
 	}
 	switch n.Obj().Name() {
-	case "List", "Set", "Hash", "SortedSet", "Stream":
+	case "List", "Set", "Hash", "SortedSet", "Stream", "Btree":
 		return n.Obj().Name(), true
 	}
 	return "", false
@@ -270,6 +270,13 @@ func (c *C) originKeys(v ssa.Value) (keys []string, unknown bool) {
 					}
 				}
 				return
+			}
+			// embedded part of a container (sortedSet.Btree): same origin as the enclosing container
+			if fa, ok := x.X.(*ssa.FieldAddr); ok && x.Op == token.MUL {
+				if _, isCont := c.containerType(fa.X.Type()); isCont {
+					walk(fa.X)
+					return
+				}
 			}
 			unknown = true
 		case *ssa.Const:
